@@ -111,6 +111,9 @@ static void setup(void)
 static void teardown(void)
 {
     int k;
+    /* unregister name by name (the collection's destructor walks the list while unregistering by identifier,
+     * which is only safe when identifiers are unique: that is the property under test, do not rely on it here) */
+    for( k = 1; k <= MAXN; k++ ) if( ids[k] >= 0 ) { parsec_info_unregister(&nfo, ids[k], NULL); ids[k] = -1; }
     for( k = 1; k <= MAXO; k++ ) if( oa_inited[k] ) { PARSEC_OBJ_DESTRUCT(&oas[k]); oa_inited[k] = 0; }
     PARSEC_OBJ_DESTRUCT(&nfo);
 }
